@@ -5,6 +5,7 @@ import (
 	"encoding/hex"
 	"encoding/json"
 	"fmt"
+	"gfverif/gen"
 	"os"
 	"strings"
 
@@ -128,6 +129,14 @@ func (w *World) staticOutputs(out *OutputLog) {
 			if err != nil {
 				return
 			}
+			// legacy definitions whose translation maps also carry the old "base" key beside the base
+			// language (exports that went through several releases do)
+			if vb := withLegacyBaseKeys(cd.Bytes); vb != nil {
+				snapB := w.Seams.Snapshot()
+				mb, errb := migrations.MigrateToLatest(vb, migrations.DefaultConfig)
+				w.Seams.Restore(snapB)
+				out.add(fmt.Sprintf("corpus-migrate-base-keys/%d", k), fmt.Sprintf("%v|%s", errb, mb))
+			}
 			snap := w.Seams.Snapshot()
 			c, cerr := migrations.Clone(m, map[uuids.UUID]uuids.UUID{})
 			w.Seams.Restore(snap)
@@ -208,4 +217,47 @@ func LabelClass(l string) string {
 		out = append(out, c)
 	}
 	return string(out)
+}
+
+// withLegacyBaseKeys returns a legacy definition in which every map keyed by the flow's base
+// language also has a "base" entry with another text (nil for other definitions).
+func withLegacyBaseKeys(def []byte) []byte {
+	var root map[string]any
+	if json.Unmarshal(def, &root) != nil || root["spec_version"] != nil {
+		return nil
+	}
+	base, _ := root["base_language"].(string)
+	if base == "" || base == "base" {
+		return nil
+	}
+	n := 0
+	var walk func(x any)
+	walk = func(x any) {
+		switch t := x.(type) {
+		case map[string]any:
+			if v, ok := t[base].(string); ok && t["base"] == nil && len(t) <= 6 {
+				t["base"] = v + " (base)"
+				n++
+			}
+			// reply/send actions get quick replies (lists of language maps) if they have none
+			if ty, _ := t["type"].(string); (ty == "reply" || ty == "send") && t["msg"] != nil {
+				if qr, _ := t["quick_replies"].([]any); len(qr) == 0 {
+					t["quick_replies"] = []any{map[string]any{base: "Yes"}, map[string]any{base: "No"}}
+				}
+			}
+			for _, k := range gen.SortedKeys(t) {
+				walk(t[k])
+			}
+		case []any:
+			for _, e := range t {
+				walk(e)
+			}
+		}
+	}
+	walk(root)
+	if n == 0 {
+		return nil
+	}
+	b, _ := json.Marshal(root)
+	return b
 }
